@@ -27,7 +27,8 @@ RULE = ("cases = (script as token lists, layout): generated CREATE TABLE (core +
 RULE += (" Added after seeded defects: tables may also carry AUTO_INCREMENT / AUTOINCREMENT, COLLATE, COMMENT and CHECK column options, sort directions and [NON]CLUSTERED on key clauses, parenthesised and decimal defaults, tricky vocabulary names.")
 ASSUMPTIONS = ["the canonical rendering's result is the reference (its content is decided by C01/C02/C04/C17)",
                "values (CASCADE, type names, TRUE) and identifiers are never re-cased by the renderer",
-               "layout of unsupported statements is not varied"]
+               "layout of unsupported statements is not varied",
+               "text-level re-breaking keeps a statement's first keyword and the following word on one line: after a statement WITHOUT ';' the pinned tree recognises the next statement only by a line that starts with 'CREATE ' / 'ALTER ' / 'DROP ' / 'SET ' plus more text (a lone 'CREATE' line is glued to the open statement); terminated scripts rendered from tokens do break there"]
 MIN_EVENTS = {"statements": 100, "run_return": 100}
 
 LAYOUTS = [
@@ -179,6 +180,7 @@ def rebreak(text, rng, p=0.3):
             out.append(line)
             continue
         buf, q = [], None
+        first_gap = line.find(" ")          # the statement keyword and the word after it stay on one line (see ASSUMPTIONS)
         for i, ch in enumerate(line):
             if q:
                 if ch == q:
@@ -189,7 +191,7 @@ def rebreak(text, rng, p=0.3):
                 q = ch
                 buf.append(ch)
                 continue
-            if ch == " " and i + 1 < len(line) and line[i + 1] not in " \t'\"`;" and (i == 0 or line[i - 1] not in " \t") and rng.random() < p:
+            if ch == " " and i != first_gap and i + 1 < len(line) and line[i + 1] not in " \t'\"`;" and (i == 0 or line[i - 1] not in " \t") and rng.random() < p:
                 nxt = re.match(r"\w+", line[i + 1:])
                 if not (nxt and nxt.group(0).upper() in LINE_START):
                     buf.append(rng.choice(["\n  ", "\n    ", "\n\t", " \n  "]))
